@@ -7,13 +7,13 @@ HOOK_COMMITS = []
 
 ENGINES = [
     {'name': 'E1-input-config-explorer', 'path': 'vf/core.py, vf/univ.py, vf/oracles.py',
-     'serves_properties': ['C01', 'C02', 'C03', 'C04', 'C05', 'C06', 'C09', 'C10', 'C11', 'C17', 'C19'],
+     'serves_properties': ['C01', 'C02', 'C03', 'C04', 'C05', 'C06', 'C09', 'C10', 'C11', 'C12', 'C17', 'C18', 'C19'],
      'kind_free_text': 'explicit enumeration of every input shape/value/configuration inside stated bounds; real code run on each; compared with a reference model on every case'},
     {'name': 'E4-sanitizer-native-enumerator', 'path': 'native/c08drv.c, vf/props/c08.py', 'serves_properties': ['C08'],
      'kind_free_text': 'native driver enumerating its configuration universe under ASan/UBSan with exact-size buffers; abort-and-restart attribution through a breadcrumb file'},
     {'name': 'E3-vomp-schedule-explorer', 'path': 'native/vomp.c, native/c07drv.c, vf/props/c07.py', 'serves_properties': ['C07'],
      'kind_free_text': 'own GOMP_*/__tsan_* runtime with ucontext coroutines; CHESS-style iterative preemption bounding with replayable choice sequences; virtual multiprocessing pool with exhaustive completion orders'},
-    {'name': 'E2-history-explorer', 'path': 'vf/props/c13.py, c14.py, c15.py, c18.py, c20.py (check_histories)', 'serves_properties': ['C13', 'C14', 'C15'],
+    {'name': 'E2-history-explorer', 'path': 'vf/props/c13.py, c14.py, c15.py, c18.py, c20.py (check_histories)', 'serves_properties': ['C13', 'C14', 'C15', 'C18', 'C20'],
      'kind_free_text': 'breadth-first enumeration of operation sequences; each prefix is replayed on a fresh live object; differential oracle = fresh-object / reference answer at every step'},
     {'name': 'E5-choice-tape-explorer', 'path': 'vf/props/c16.py (Tape, Patched, explore_fit)', 'serves_properties': ['C16'],
      'kind_free_text': 'every random draw is a choice point with all outcomes of non-zero probability as alternatives; DFS with prefix replay on fresh objects'},
@@ -128,6 +128,17 @@ CHECKS['C16'] = (E5, 'E5-choice-tape-explorer',
     'performed_it <= max_it+1, monitor protocol; exceptions are violations. Data: multisets of 3..5 short series (duplicates included), k in {2,3}, 4 initialisations, 9 option sets incl. C engine and the virtual pool.',
     'Trusted: vf/oracles.py DTW (1e-9 slack, means are not dyadic); the choice functions mirror numpy semantics incl. its ValueError for unsatisfiable draws. Leaf cap 20000 per tree (reported if hit).',
     'DESIGN.md section 3 E5, section 4 C16')
+
+CHECKS['C12'] = (E1, 'E1-input-config-explorer',
+    'Every collection of 1..3 short series x initial average x non-empty mask x window x penalty (ndim 1-2, list and matrix containers) through dba (Python), dba(use_c) and dtw_cc.dba/_ndim: ALL optimal warping paths of (average, series) are enumerated explicitly and the result must be the '
+    'per-position mean under some combination of them; value range; sum of squared reference DTW distances does not increase; engines agree when the optimal paths are unique; single-symbol changes of unselected series leave the result unchanged; dba_loop: <= max_it update steps, caller\'s c untouched, identical series are a fixed point.',
+    'Trusted: vf/oracles.py explicit path enumeration (combination cap 4096, reported if hit). The probabilistic DBA is outside C12.',
+    'DESIGN.md section 4 C12')
+CHECKS['C18'] = (E1 + '; ' + E2, 'E1-input-config-explorer + E2-history-explorer',
+    'All series pairs up to length 3 (4) x gamma x tau x delta x delta_factor x penalty{None,0,.1} x window x only_triu: the Python matrix, the C full matrix and the C compact array expanded/sliced (every slice on a quarter of the pairs) must equal a literal transcription of the recurrence cell by cell (-inf where excluded). '
+    'LocalConcurrences histories up to depth 3 (4) over two interleaved iterators (k, minlen, buffer, restart), kbest_matches_store(keep T/F) and reset, for Python, C full and C compact: every match is a contiguous monotone path through cells that are positive in the reference matrix, ends in its reported maximum, and shares no cell with an earlier match of the same un-restarted history.',
+    'Trusted: math.exp transcription (1e-12). psi-relaxation and the returned scalar of the affinity routines are not described by C18.',
+    'DESIGN.md section 4 C18')
 
 ALL = ['C%02d' % i for i in range(1, 21)]
 NOT_APPLICABLE = {p: PENDING for p in ALL if p not in CHECKS}
